@@ -1548,4 +1548,39 @@ theorem write_collect_from [DecidableEq κ] {next : σ → Outcome (Option π ×
 
 end Wrappers
 
+/-- reading a list back cell by cell -/
+theorem filterMap_range'_getElem?_map {β γ : Type} (f : β → γ) (l pre : List β) :
+    (List.range' pre.length l.length).filterMap (fun k => ((pre ++ l)[k]?).map f) = l.map f := by
+  induction l generalizing pre with
+  | nil => simp
+  | cons x xs ih =>
+    have e : pre ++ x :: xs = (pre ++ [x]) ++ xs := by simp
+    have hx : (pre ++ x :: xs)[pre.length]? = some x := by simp
+    simp only [List.length_cons, List.range'_succ, List.filterMap_cons, hx, Option.map_some,
+      List.map_cons]
+    congr 1
+    have := ih (pre ++ [x])
+    rw [List.length_append, List.length_singleton] at this
+    rw [e]
+    exact this
+
+/-- the closure's results in the first `p` cells, the old contents from there on -/
+theorem take_map_append_drop {α : Type} (m : Nat → α) (g : α → α) (n p : Nat) :
+    (((List.range n).map m).take p).map g ++ ((List.range n).map m).drop p =
+      (List.range n).map (fun i => if i < p then g (m i) else m i) := by
+  apply List.ext_getElem?
+  intro i
+  by_cases hi : i < n
+  · by_cases hp : i < p
+    · rw [List.getElem?_append_left (by simp; omega)]
+      simp [hi, hp]
+    · rw [List.getElem?_append_right (by simp; omega)]
+      simp only [List.length_map, List.length_take, List.length_range, List.getElem?_drop,
+        List.getElem?_map]
+      have e : p + (i - min p n) = i := by omega
+      simp [e, hi, hp]
+  · have h1 : ((((List.range n).map m).take p).map g ++ ((List.range n).map m).drop p).length ≤ i := by
+      simp; omega
+    rw [List.getElem?_eq_none h1, List.getElem?_eq_none (by simp; omega)]
+
 end EasyMl.Iter
